@@ -6,7 +6,7 @@
    read statuses, deliver watch events, run handlers) with no other event in
    between; workloads created on the node afterwards are outside the statement. *)
 From Coq Require Import List.
-From Verif Require Import Selfmon.Selfmon Selfmon.SelfmonProofs Selfmon.OkProofs.
+From Verif Require Import Selfmon.Selfmon Selfmon.SelfmonProofs Selfmon.OkProofs Selfmon.GenProofs.
 Import ListNotations.
 
 (* for every history: the status of n disappears while watcher k is active (in
@@ -134,9 +134,8 @@ Theorem C28_agree_gen : forall acts, agree (gen_case acts) = true.
 Proof. exact agree_gen. Qed.
 Print Assumptions C28_agree_gen.
 
-(* ok accepts the model's own output: exhaustive for 3 x 30941 histories (set-up
-   prefix + up to 4 actions of a 13-letter alphabet); NOT proved for all histories *)
-Theorem C28_ok_gen_bounded :
-  all_ok setup 4 = true /\ all_ok (setup ++ [AStart]) 4 = true /\ all_ok (setup ++ [AStartHeld; AStart]) 4 = true.
-Proof. exact ok_gen_bounded. Qed.
-Print Assumptions C28_ok_gen_bounded.
+(* ok accepts the model's own observations for EVERY history (induction over the
+   history with an invariant relating ok's bookkeeping to the model state) *)
+Theorem C28_ok_gen : forall acts, ok (gen_case acts) = true.
+Proof. exact ok_gen. Qed.
+Print Assumptions C28_ok_gen.
